@@ -55,7 +55,7 @@ class RegexChecker(Checker):
             except InvalidPatternError:
                 log.exception('Error matching policy, because of failed regex %s compilation', i)
                 return False
-            if re.match(pattern, what):
+            if re.fullmatch(pattern, what):
                 return True
         return False
 
